@@ -10,12 +10,13 @@ mux encoder, an independently written decoder and the reply-header reader over S
     accepted are framed (4-byte length + exactly that many bytes, trailing partial frame only if the
     connection was closed in mid-write) and every frame is matched against what was supplied: each Tdispatch
     is the encoding of exactly one supplied dispatch (at most once), each Tdiscarded names the tag of an
-    earlier Tdispatch and carries a reason, each Tping has an empty body;
+    earlier Tdispatch whose call's discard was supplied (its timeout was signalled to the transport) and that
+    no earlier Tdiscarded has named, and carries a reason, each Tping has an empty body;
   * MuxSendLoop.tla is the code-shaped model of the writer side (callers parking during the open, send queue,
     single writer greenlet with partial socket writes, ping loop, deadline events) with MuxStreamAbs embedded
     in lock-step; TLC checks "the delivered stream is the concatenation of the supplied frames in queue
-    order" and returns counterexamples for three seeded designs (shared marshal buffer, ping written
-    directly to the socket, blocked write abandoned at the deadline).
+    order" and returns counterexamples for four seeded designs (shared marshal buffer, ping written
+    directly to the socket, blocked write abandoned at the deadline, shared prebuilt Tdiscarded frame).
 There is no Python oracle: the driver only supplies inputs and copies out the bytes the code wrote.
 
 Three driving modes (all use only real classes from /repo):
@@ -30,7 +31,8 @@ Three driving modes (all use only real classes from /repo):
           writes, write low-water mark) on the virtual loop: calls from concurrent greenlets (also while
           the connection is still opening), deadlines (Tdiscarded), the periodic ping (scripted period),
           back-pressure placed around those instants, replies, faults.  Recorded: what the script supplied
-          (contexts incl. client id and deadline + Thrift call) and every chunk the connection accepted.
+          (dispatches: contexts incl. client id and deadline + Thrift call; discards: the call whose deadline
+          event the stack's timeout sink signalled) and every chunk the connection accepted.
 The Thrift call inside a Tdispatch is opaque here (C14 owns it): a stand-in "generated" service
 writes a scripted blob; the expected payload is what scales.thrift.serializer produces for the
 same call on its own.
@@ -61,8 +63,11 @@ ASSUMPTIONS = [
   'transport, only the discarded tag is an input (reason/tag clauses are evaluated in direct mode)',
   'stream mode: one connection per trace; the tag of a Tdispatch/Tping is the transport\'s choice (C11), a frame '
   'is attributed to a supplied dispatch by its Thrift call (the script makes the calls pairwise distinct); '
-  'whether/when a supplied message is written at all is not judged (C12, C02); a Tdiscarded must name the tag of '
-  'an earlier Tdispatch frame of the connection and carry UTF-8 text; a trailing partial frame is accepted only '
+  'whether/when a supplied message (dispatch or discard) is written at all, and the order among discards, is not '
+  'judged (C12, C02); a discard is supplied when the timeout sink signals the call\'s deadline event (observed by a '
+  'subscriber on that event; if a tree has no such event the oracle falls back to "tag of an earlier Tdispatch"); '
+  'a Tdiscarded must name the tag of an earlier Tdispatch frame whose call\'s discard was supplied and not yet named '
+  'by another Tdiscarded, and carry UTF-8 text; a trailing partial frame is accepted only '
   'if the connection was closed while a write was in progress; the simulated socket accepts what fits its send '
   'buffer, wakes a blocked sender at the write low-water mark and, like gevent, refuses a second blocked sender',
 ]
@@ -73,7 +78,8 @@ RULE = {'C13': 'records generated from VERIF_SEED: message kind x tag class (byt
                'a trace is non-trivial if it has a Tdispatch with a non-empty context, a Tdiscarded or a header '
                'read-back; distinct by canonical record list.  Stream mode: seeded timelines in four families '
                '(calls while the connection opens; periodic ping due while a frame is stuck in the socket; deadline '
-               'expiring while a frame is stuck or queued behind it; random mix with faults/close), ASCII and non-ASCII '
+               'expiring while a frame is stuck or queued behind it; 2-4 calls with one deadline instant; calls on the '
+               'wire timing out while the writer is blocked; random mix with faults/close), ASCII and non-ASCII '
                'contexts; a stream trace is non-trivial if at least two dispatches were supplied and a write was '
                'split, a call was issued before the open completed, or a Tdiscarded / periodic Tping was written'}
 
@@ -146,7 +152,9 @@ def _sendloop_models(quick):
   asis = 'send queue + single writer greenlet + partial writes + ping loop + deadline events, as the code is: ' \
          'the delivered stream is the concatenation of the supplied frames in queue order, MuxStreamAbs accepts'
   ms = [dict(module='MuxSendLoop', cfg='MuxSendLoop_q.cfg', workers=8,
-             what=asis + ' (2 calls, 1 deadline, 1 ping, send buffer 16, drains 3/16)')]
+             what=asis + ' (2 calls, 1 deadline, 1 ping, send buffer 16, drains 3/16)'),
+        dict(module='MuxSendLoop', cfg='MuxSendLoop_q3.cfg', workers=8,
+             what=asis + ' (2 calls, both with a deadline: two supplied discards; no ping)')]
   if not quick:
     ms += [
       dict(module='MuxSendLoop', cfg='MuxSendLoop_q2.cfg', workers=8, what=asis + ' (write low-water mark 12)'),
@@ -161,7 +169,8 @@ def _sendloop_models(quick):
     ]
   for v, design in (('B', 'one marshal buffer shared by all calls (seeded C13-B)'),
                     ('C', 'ping written to the socket by the ping greenlet, a second writer (seeded C13-C)'),
-                    ('D', 'blocked write abandoned at the message deadline (seeded C13-D)')):
+                    ('D', 'blocked write abandoned at the message deadline (seeded C13-D)'),
+                    ('E', 'one prebuilt Tdiscarded frame patched per timeout and queued by reference (seeded C13-E)')):
     ms.append(dict(module='MuxSendLoop', cfg='MuxSendLoop_%s.cfg' % v, workers=2, expect_violation='WholeFramesInOrder',
                    what='design variant: ' + design + ': counterexample to whole frames in queue order'))
     if not quick:
@@ -457,6 +466,91 @@ def _stream_deadlinestall(rng, cls):
   return sc
 
 
+def _stream_samedeadline(rng, cls):
+  """k = 2..4 calls whose deadlines fall on the same instant (or within the timer queue's 10 ms resolution):
+  their timeouts are handled in one pass of the timer queue, before the send loop runs again."""
+  sc = _stream_base(rng, cls)
+  sc['fam'] = 'samedeadline'
+  t = rng.choice([10, 500, 3000])
+  steps = [['open'], ['at', t]]
+  n = 0
+  if rng.random() < 0.3:
+    n += 1
+    steps.append(_stream_call(rng, n, cls, 0))
+  D = t + rng.choice([20, 50, 200])
+  k = rng.choice([2, 2, 3, 4])
+  stagger = rng.random() < 0.5
+  for i in range(k):
+    if stagger and i:
+      t += rng.choice([0, 1, 3])
+      steps.append(['at', t])
+    n += 1
+    # same absolute deadline, or a few ms apart inside one 10 ms tick of the timer queue
+    T = D - t - (rng.choice([0, 0, 1, 2]) if rng.random() < 0.3 else 0)
+    steps.append(_stream_call(rng, n, cls, T))
+  if rng.random() < 0.3:
+    n += 1
+    steps.append(_stream_call(rng, n, cls, 0))
+  steps.append(['run'])
+  if rng.random() < 0.3:
+    steps.append(['reply', rng.randint(0, 3)])       # one of them completes in time
+  if rng.random() < 0.3:                              # the discards meet a peer that is not reading
+    steps.append(['room', rng.choice([0, 5, 12, 30])])
+  steps.append(['at', D + rng.choice([15, 40])])
+  if rng.random() < 0.4:
+    n += 1
+    steps.append(_stream_call(rng, n, cls, rng.choice([0, 30])))
+  steps.append(['drain', None])
+  steps.append(['adv', 20])
+  for _ in range(rng.choice([0, 1, 3])):
+    steps.append(['reply', rng.randint(0, 3)])
+  steps.append(['adv', 100])
+  sc['steps'] = steps
+  return sc
+
+
+def _stream_timeoutsblocked(rng, cls):
+  """Calls that are already on the wire time out one after the other (or together) while the send loop is
+  blocked in the socket on a later frame: their Tdiscarded pile up in the send queue."""
+  sc = _stream_base(rng, cls)
+  sc['fam'] = 'timeoutsblocked'
+  sc['lowat'] = rng.choice([1, 1, 24])
+  t = rng.choice([10, 800])
+  steps = [['open'], ['at', t]]
+  n = 0
+  k = rng.choice([2, 2, 3])
+  gap = rng.choice([0, 20, 20, 50])
+  D = t + 60
+  for i in range(k):
+    n += 1
+    steps.append(_stream_call(rng, n, cls, D + i * gap - t))
+  steps.append(['run'])
+  steps.append(['at', t + rng.choice([5, 40])])
+  steps.append(['room', rng.choice([0, 3, 8, 10, 20, 40])])
+  n += 1
+  steps.append(_stream_call(rng, n, cls, rng.choice([0, 0, 5000])))      # the frame the writer gets stuck on
+  steps.append(['run'])
+  if gap and rng.random() < 0.5:
+    # between two timeouts the peer reads a little: the first Tdiscarded may be half way out when the next lands
+    steps.append(['at', D + gap // 2])
+    steps.append(['drain', rng.choice([10, 60, 130, 150])])
+  steps.append(['at', D + k * gap + rng.choice([15, 100])])
+  if rng.random() < 0.3:
+    steps.append(['drain', rng.choice([5, 30])])
+    steps.append(['adv', 5])
+  steps.append(['drain', None])
+  steps.append(['adv', 20])
+  for _ in range(rng.choice([0, 2])):
+    steps.append(['reply', rng.randint(0, 3)])
+  if rng.random() < 0.4:       # a tag that was discarded and then answered is used again, and times out again
+    n += 1
+    steps.append(_stream_call(rng, n, cls, 30))
+    steps.append(['adv', 60])
+  steps.append(['adv', 100])
+  sc['steps'] = steps
+  return sc
+
+
 def _stream_mixed(rng, cls):
   """Random timeline: calls, back-pressure, replies, the ping instants, faults, close."""
   sc = _stream_base(rng, cls)
@@ -469,9 +563,14 @@ def _stream_mixed(rng, cls):
   n = 0
   for _ in range(rng.randint(6, 16)):
     k = rng.random()
-    if k < 0.3:
+    if k < 0.1:                  # a burst of calls with one deadline
+      T = rng.choice([5, 40, 40, 300])
+      for _ in range(rng.choice([2, 3])):
+        n += 1
+        steps.append(_stream_call(rng, n, cls, T))
+    elif k < 0.3:
       n += 1
-      steps.append(_stream_call(rng, n, cls, rng.choice([0, 0, 5, 40, 300, 20000])))
+      steps.append(_stream_call(rng, n, cls, rng.choice([0, 0, 5, 40, 40, 300, 20000])))
     elif k < 0.42:
       steps.append(['room', rng.choice([0, 2, 6, 8, 11, 25, 60, 150, None])])
     elif k < 0.54:
@@ -499,7 +598,8 @@ def _stream_mixed(rng, cls):
 def _stream_cases(rng, quick):
   mult = 1 if quick else 5
   out = []
-  for fam, n in ((_stream_openrace, 40), (_stream_pingstall, 50), (_stream_deadlinestall, 40), (_stream_mixed, 60)):
+  for fam, n in ((_stream_openrace, 40), (_stream_pingstall, 50), (_stream_deadlinestall, 40), (_stream_mixed, 60),
+                 (_stream_samedeadline, 30), (_stream_timeoutsblocked, 30)):
     for i in range(n * mult):
       out.append(fam(rng, 'ascii' if i % 3 == 0 else 'uni'))
   return out
@@ -900,8 +1000,9 @@ def _run_stream(script, loop):
   """The real client sink stack  TimeoutSink -> [ClientIdInterceptorSink] -> ThriftMuxMessageSerializerSink ->
   thriftmux SocketTransportSink -> VarzSocketWrapper/ScalesSocket  over a simulated connection, driven by a
   scripted timeline (calls from concurrent greenlets, deadlines, the periodic ping, write back-pressure,
-  replies, faults).  Recorded: what the test supplied (Sup: contexts + Thrift call, computed from the
-  script, never read back from the stack) and every chunk of bytes the connection accepted (Bytes)."""
+  replies, faults).  Recorded: what the test supplied (Sup dispatch: contexts + Thrift call, computed
+  from the script -- only the deadline pair is taken from the Deadline object handed to the marshaller; Sup
+  discard: the call whose deadline event was signalled) and every chunk of bytes the connection accepted."""
   import gevent
   from harness.simgevent import simnet, peers
   from harness.simgevent.vloop import EPOCH
@@ -928,7 +1029,7 @@ def _run_stream(script, loop):
 
   ev = []
   st = {'next_ping': None, 'pings_due': 0, 'open_done': False, 'early_calls': 0, 'closed': False,
-        'delivered': 0, 'errors': 0}
+        'delivered': 0, 'errors': 0, 'supdisc': 1}
   gaps = list(script.get('ping_gaps', []))
 
   class _Rnd(object):            # the ping period (30..40 s) is scripted
@@ -957,9 +1058,58 @@ def _run_stream(script, loop):
     conn.on_closed = on_closed
   net.on_connect_start = on_connect_start
 
+  pending = {}                   # id(msg) -> Sup event to be completed when the message is marshalled
+  timed_out = set()
+
+  def on_timeout(payload, value):
+    key = bytes(bytearray(payload))
+    if value and key not in timed_out:
+      timed_out.add(key)
+      ev.append({'e': 'Sup', 'k': 'discard', 'ctx': [], 'payload': payload})
+
+  class Tap(ClientMessageSink):
+    """Pass-through between serializer sink and transport: the supplied deadline is the Deadline object the
+    marshaller was handed (as in stack mode); the Sup event is emitted here, i.e. before the transport sees
+    the message."""
+    def __init__(self, nxt):
+      super(Tap, self).__init__()
+      self.next_sink = nxt
+
+    def AsyncProcessRequest(self, sink_stack, msg, stream, headers):
+      sup = pending.pop(id(msg), None)
+      if sup is not None:
+        if sup['dl'] is not None:
+          d = (headers or {}).get(DEADLINE_KEY)
+          try:
+            ts, to = int(d._ts), int(d._timeout)
+          except AttributeError:   # documented meaning: (time of the call in whole seconds, absolute deadline), ns
+            ts, to = sup['dl']
+          sup['ctx'].append(_dl_entry(ts, to))
+        ev.append({'e': 'Sup', 'k': 'dispatch', 'ctx': sup['ctx'], 'payload': sup['payload']})
+        # A discard is supplied when the call's timeout is signalled to the transport: the stack's timeout
+        # sink sets the message's deadline event (a persistent subscriber is notified before the transport's
+        # one-shot handler, and in any case before the send loop can write the Tdiscarded).
+        evt = msg.properties.get(Deadline.EVENT_KEY)
+        if evt is not None and callable(getattr(evt, 'Subscribe', None)):
+          evt.Subscribe(lambda v, p=sup['payload']: on_timeout(p, v))
+        elif sup['dl'] is not None:
+          st['supdisc'] = 0          # cannot be observed on this tree: the oracle falls back to the weaker clause
+      self.next_sink.AsyncProcessRequest(sink_stack, msg, stream, headers)
+
+    def AsyncProcessResponse(self, sink_stack, context, stream, msg):
+      raise NotImplementedError()
+
+  class TapProvider(object):
+    next_provider = None
+
+    def CreateSink(self, properties):
+      return Tap(self.next_provider.CreateSink(properties))
+
   tprov = SocketTransportSink.Builder()
+  tap = TapProvider()
+  tap.next_provider = tprov
   ser = ThriftMuxMessageSerializerSink.Builder()
-  ser.next_provider = tprov
+  ser.next_provider = tap
   below = ser
   client_id = script.get('client_id')
   if client_id is not None:
@@ -1000,15 +1150,15 @@ def _run_stream(script, loop):
       ctx.append(_text_entry(k, v))
     if client_id is not None:
       ctx.append(_text_entry(CLIENT_ID_KEY, client_id))
+    dl = None
     if T:
       now = loop.now()
       deadline = now + T / 1000.0
       msg.properties[Deadline.KEY] = deadline
-      # Deadline context as documented: (timestamp of the call in whole seconds, absolute deadline), in ns
-      ctx.append(_dl_entry(int(now) * 10 ** 9, int(deadline * 1000000000)))
+      dl = (int(now) * 10 ** 9, int(deadline * 1000000000))
     b = BytesIO()
     thrift.SerializeThriftCall(msg, b)                     # the Thrift call as its own serializer writes it (C14)
-    ev.append({'e': 'Sup', 'ctx': ctx, 'payload': list(bytearray(b.getvalue()))})
+    pending[id(msg)] = {'ctx': ctx, 'payload': list(bytearray(b.getvalue())), 'dl': dl, 'msg': msg}
     if not st['open_done']:
       st['early_calls'] += 1
     stack = ClientMessageSinkStack()
@@ -1072,7 +1222,8 @@ def _run_stream(script, loop):
   if c is not None and not c.closed and c._swaiter is not None:
     raise RuntimeError('harness: a write is still blocked at the end of the scenario')
   ev.append({'e': 'End'})
-  meta = {'mode': 'stream', 'early_calls': st['early_calls'], 'pings_due': st['pings_due'],
+  meta = {'mode': 'stream', 'supdisc': st['supdisc'], 'discards_supplied': len(timed_out),
+          'early_calls': st['early_calls'], 'pings_due': st['pings_due'],
           'closed': st['closed'], 'delivered': st['delivered'], 'call_errors': st['errors'],
           'partial_sends': c.partial_sends if c is not None else 0,
           'blocked_sends': c.blocked_sends if c is not None else 0,
@@ -1089,8 +1240,8 @@ def run_case(script):
     ev, meta = _run_stack(script, loop)
   else:
     ev, meta = _run_direct(script, loop)
-  return {'cfg': {'mode': script['mode'], 'cls': script.get('cls', ''), 'fam': script.get('fam', '')}, 'ev': ev,
-          'meta': meta}
+  return {'cfg': {'mode': script['mode'], 'cls': script.get('cls', ''), 'fam': script.get('fam', ''),
+                  'supdisc': meta.get('supdisc', 0)}, 'ev': ev, 'meta': meta}
 
 
 # ------------------------------------------------------------------ classification
@@ -1111,7 +1262,7 @@ def nontrivial(prop, t):
   if t['cfg'].get('mode') == 'stream':
     m = t.get('meta', {})
     fr = _frames_of(t)
-    if sum(1 for e in t['ev'] if e['e'] == 'Sup') >= 2 and (
+    if sum(1 for e in t['ev'] if e['e'] == 'Sup' and e.get('k') == 'dispatch') >= 2 and (
         m.get('partial_sends') or m.get('early_calls') or any(ty == 66 for ty, _ in fr) or
         sum(1 for ty, _ in fr if ty == 65) > 1):
       return common.canon(t['ev'])
@@ -1152,7 +1303,8 @@ def extra_coverage(prop, tier, traces):
         via_socket += 1
       if 'tag' in e:
         tags.add(e['tag'])
-  st = {'traces': 0, 'by_family': {}, 'dispatches_supplied': 0, 'chunks': 0, 'bytes': 0, 'with_split_writes': 0,
+  st = {'traces': 0, 'by_family': {}, 'dispatches_supplied': 0, 'discards_supplied': 0,
+        'with_2_or_more_discards_supplied': 0, 'with_2_or_more_tdiscarded': 0, 'discards_observed': 0, 'chunks': 0, 'bytes': 0, 'with_split_writes': 0,
         'with_calls_before_open': 0, 'with_tdiscarded': 0, 'with_periodic_ping': 0, 'connection_closed': 0,
         'closed_in_mid_write': 0}
   for t in traces:
@@ -1162,7 +1314,12 @@ def extra_coverage(prop, tier, traces):
     fr = _frames_of(t)
     st['traces'] += 1
     st['by_family'][t['cfg'].get('fam')] = st['by_family'].get(t['cfg'].get('fam'), 0) + 1
-    st['dispatches_supplied'] += sum(1 for e in t['ev'] if e['e'] == 'Sup')
+    st['dispatches_supplied'] += sum(1 for e in t['ev'] if e['e'] == 'Sup' and e.get('k') == 'dispatch')
+    nd = sum(1 for e in t['ev'] if e['e'] == 'Sup' and e.get('k') == 'discard')
+    st['discards_supplied'] += nd
+    st['with_2_or_more_discards_supplied'] += 1 if nd >= 2 else 0
+    st['with_2_or_more_tdiscarded'] += 1 if sum(1 for ty, _ in fr if ty == 66) >= 2 else 0
+    st['discards_observed'] += 1 if t['cfg'].get('supdisc') else 0
     st['chunks'] += sum(1 for e in t['ev'] if e['e'] == 'Bytes')
     st['bytes'] += sum(len(e['data']) for e in t['ev'] if e['e'] == 'Bytes')
     st['with_split_writes'] += 1 if m.get('partial_sends') else 0
